@@ -213,7 +213,7 @@ static void c03_child(const void *job, size_t n) {
 static void *cs_t1(void *arg) { (void) arg; bidib_send_sys_ping(NA[0], 0x31, 0); bidib_send_sys_ping(NA[0], 0x32, 0); bidib_flush(); return NULL; }
 static void *cs_t2(void *arg) { (void) arg; bidib_send_bm_get_range(NA[0], 0, 8, 0); bidib_send_sys_ping(NA[0], 0x41, 0); bidib_flush(); return NULL; }
 static void c03_sched_child(const void *job, size_t n) {
-	vs_dev_t devs[VS_MAXDEV]; int nd; size_t pl; const uint8_t *p = job_parse(job, n, devs, &nd, &pl); (void) p;
+	vs_dev_t devs[VS_MAXDEV]; int nd; size_t pl; const uint8_t *p = job_parse(job, n, devs, &nd, &pl); int unlock_pts = pl > 0 && p[0] == 1;
 	hx_child_begin(devs, nd, 1, NULL, 0, 0);
 	if (hx_start_debug(0)) res_infra("start failed");
 	hx_quiesce();
@@ -221,10 +221,12 @@ static void c03_sched_child(const void *job, size_t n) {
 	bidib_flush(); hx_quiesce();
 	size_t in_base = env_bytes_consumed(); size_t ans_end[2]; size_t off = 0;
 	for (int k = 0; k < 2; k++) { uint8_t d = (uint8_t) k, m[16], f[40]; int ml = rc_build_msg(m, NADDR[0], (uint8_t) (k + 1), MSG_SYS_PONG, &d, 1); size_t fl = rc_frame(f, m, (size_t) ml, 1); env_push_quiet(f, fl); off += fl; ans_end[k] = in_base + off; }
+	vs_unlock_points = unlock_pts;      /* second pass: what the senders / the receiver still do after dropping a lock is interruptible */
 	vs_window(1);
 	int t1 = vs_spawn(cs_t1, NULL), t2 = vs_spawn(cs_t2, NULL);
 	vs_join_tid(t1); vs_join_tid(t2); hx_quiesce();
 	vs_window(0);
+	vs_unlock_points = 0;
 	bidib_flush(); hx_quiesce(); drain_queues();
 	/* oracle over the write log */
 	static rc_pkt_t pk[64]; char err[200]; int used = 0, lastseq = 0, count = 0; hx_hash_t h; hx_hash_init(&h);
@@ -266,6 +268,9 @@ int c03_run(const char *tier) {
 	{ e1_spec_t es = { .harness = "c03.sched", .param = "", .nparam = 0, .bound = thorough ? 3 : 2, .label = "c03.sched two senders || receiver crediting answers" };
 	  e1_explore(&es); long ex = 0; for (int k = 0; k < 8; k++) ex += es.schedules_by_cost[k]; s.execs += ex; s.states += es.distinct_outcomes; s.transitions += es.choice_points; if (!es.exhaustive) s.exhaustive = 0;
 	  rep_note("c03.sched: bound=%d completed=%d schedules by cost=[%ld,%ld,%ld,%ld] distinct outcomes=%ld contended=%ld", es.bound, es.completed_bound, es.schedules_by_cost[0], es.schedules_by_cost[1], es.schedules_by_cost[2], es.schedules_by_cost[3], es.distinct_outcomes, es.contended_execs); }
+	{ uint8_t up[1] = {1}; e1_spec_t es = { .harness = "c03.sched", .param = up, .nparam = 1, .bound = thorough ? 2 : 1, .label = "c03.sched two senders || receiver, points after every unlock" };
+	  e1_explore(&es); long ex = 0; for (int k = 0; k < 8; k++) ex += es.schedules_by_cost[k]; s.execs += ex; s.states += es.distinct_outcomes; s.transitions += es.choice_points; if (!es.exhaustive) s.exhaustive = 0;
+	  rep_note("c03.sched with a scheduling point after every unlock: bound=%d completed=%d schedules by cost=[%ld,%ld,%ld] distinct outcomes=%ld", es.bound, es.completed_bound, es.schedules_by_cost[0], es.schedules_by_cost[1], es.schedules_by_cost[2], es.distinct_outcomes); }
 	rep_count("states", s.states); rep_count("transitions", s.transitions); rep_count("executions", s.execs);
 	rep_count("depth_completed", s.depth_completed); rep_flag("exhaustive", s.exhaustive);
 	char sb[256]; size_t o = 0; for (int i = 0; i <= s.depth_completed + 1 && i < 16; i++) o += (size_t) snprintf(sb + o, sizeof sb - o, "%ld ", s.states_by_depth[i]);
